@@ -48,8 +48,8 @@ func SetHook(h Hook) {
 
 // Pool variants.
 const (
-	PoolReal = 0 // the real sync.Pool
-	PoolLIFO = 1 // deterministic: always hand out the most recently returned object if there is one
+	PoolLIFO  = 0 // always hand out the most recently returned object if there is one
+	PoolFresh = 1 // never reuse: every Get builds a new object
 )
 
 // SetPoolMode selects the pool variant used by every Pool.
@@ -137,30 +137,92 @@ type rlocker RWMutex
 func (r *rlocker) Lock()   { (*RWMutex)(r).RLock() }
 func (r *rlocker) Unlock() { (*RWMutex)(r).RUnlock() }
 
-// Pool wraps sync.Pool. The exported field New has the same meaning, so the
-// composite literal sync.Pool{New: f} keeps compiling.
+// Pool stands in for sync.Pool. The exported field New has the same meaning,
+// so the composite literal sync.Pool{New: f} keeps compiling.
+//
+// sync.Pool may hand back any previously Put object or none at all, and its
+// choice depends on GC timing and on which P a goroutine runs - neither is
+// reproducible. This Pool makes one of two legal, deterministic choices:
+// PoolLIFO always returns the most recently Put object (maximal reuse, so a
+// missing Reset shows), PoolFresh never reuses anything. In the race build it
+// creates exactly the happens-before edge sync.Pool creates (Put(x) before
+// the Get that returns x) and no other, so it can neither hide nor invent a
+// race between pool users.
 type Pool struct {
 	New func() interface{}
 
-	real sync.Pool
-	mu   sync.Mutex
-	free []interface{}
+	mu         sync.Mutex
+	free       [poolSlots]interface{}
+	n          int
+	registered bool
+}
+
+const poolSlots = 64
+
+var (
+	poolsMu sync.Mutex
+	pools   []*Pool
+)
+
+// ResetPools empties every pool (called by the simulator between runs, so
+// that a run is a pure function of its scenario).
+//
+//go:norace
+func ResetPools() {
+	poolsMu.Lock()
+	for _, p := range pools {
+		for i := 0; i < p.n; i++ {
+			p.free[i] = nil
+		}
+		p.n = 0
+	}
+	poolsMu.Unlock()
+}
+
+// pop and push touch the free list without race instrumentation and with
+// synchronisation events ignored: the list is simulator state, not state of
+// the program under test.
+//
+//go:norace
+func (p *Pool) pop() interface{} {
+	raceDisable()
+	p.mu.Lock()
+	var x interface{}
+	if p.n > 0 {
+		p.n--
+		x = p.free[p.n]
+		p.free[p.n] = nil
+	}
+	p.mu.Unlock()
+	raceEnable()
+	return x
+}
+
+//go:norace
+func (p *Pool) push(x interface{}) {
+	raceDisable()
+	p.mu.Lock()
+	if !p.registered {
+		p.registered = true
+		poolsMu.Lock()
+		pools = append(pools, p)
+		poolsMu.Unlock()
+	}
+	if p.n < poolSlots {
+		p.free[p.n] = x
+		p.n++
+	}
+	p.mu.Unlock()
+	raceEnable()
 }
 
 func (p *Pool) Get() interface{} {
 	fire(EvPoolGet, uintptr(unsafe.Pointer(p)), "")
 	if atomic.LoadInt32(&poolMode) == PoolLIFO {
-		p.mu.Lock()
-		if n := len(p.free); n > 0 {
-			x := p.free[n-1]
-			p.free[n-1] = nil
-			p.free = p.free[:n-1]
-			p.mu.Unlock()
+		if x := p.pop(); x != nil {
+			raceAcquire(poolRaceAddr(x))
 			return x
 		}
-		p.mu.Unlock()
-	} else if x := p.real.Get(); x != nil {
-		return x
 	}
 	if p.New != nil {
 		return p.New()
@@ -174,10 +236,16 @@ func (p *Pool) Put(x interface{}) {
 		return
 	}
 	if atomic.LoadInt32(&poolMode) == PoolLIFO {
-		p.mu.Lock()
-		p.free = append(p.free, x)
-		p.mu.Unlock()
-		return
+		raceReleaseMerge(poolRaceAddr(x))
+		p.push(x)
 	}
-	p.real.Put(x)
+}
+
+var poolRaceHash [128]uint64
+
+// poolRaceAddr mirrors sync.Pool: the synchronisation address of an object.
+func poolRaceAddr(x interface{}) unsafe.Pointer {
+	ptr := uintptr((*[2]unsafe.Pointer)(unsafe.Pointer(&x))[1])
+	h := uint32((uint64(uint32(ptr)) * 0x85ebca6b) >> 16)
+	return unsafe.Pointer(&poolRaceHash[h%uint32(len(poolRaceHash))])
 }
